@@ -187,7 +187,7 @@ fn sweep_payloads<T: Fam>(ctx: &Ctx, ln: u32, max: u32, known: &Known) {
 
 pub fn run(ctx: &Ctx) {
     ctx.set_rule(
-        "for each of the 22 types of the family (attributes; optional attributes; child elements of string/number/bool/char; $text \
+        "for each of the 23 types of the family (attributes; optional attributes; child elements of string/number/bool/char; $text \
          with and without default; $value string; optional elements and structs; element lists of strings, numbers and structs; $text \
          and attribute simple lists; unit enums in attribute, element and $text position; unit/newtype/struct/$text variants in a \
          $value field; mixed $value lists without adjacent text items; nested structs; maps with name-like keys; newtype and tuple \
